@@ -1,10 +1,6 @@
 INIT GInit
 NEXT GNext
 VIEW View
-INVARIANT UidAligned
-INVARIANT ArchSubset
-INVARIANT UidUnique
-INVARIANT ParentMirror
 CHECK_DEADLOCK FALSE
 CONSTANTS
  ROOT = "ROOT"
